@@ -22,7 +22,7 @@ from_reader, from_value} (all 12 pairs); plus arbitrary valid request / reply JS
 serialised back. Oracles: de(ser(v)) == v; unset optional members absent from the output; a set is written as an \
 object of empty objects; ser(de(obj)) equals obj after dropping null-valued optional members. Floats are drawn \
 from those that survive serde_json's own text round trip (it is built without `float_roundtrip`); a Rust-side \
-`parameters: Some(Null)` is excluded (JSON null is the absent optional). Non-trivial: a non-empty set / map, or a \
+`parameters: Some(Null)` is excluded (JSON null is the absent optional). Reply error names include the four standard ones, names of other interfaces sharing their last element, and near-misses. Non-trivial: a non-empty set / map, or a \
 message with both set and unset optional members; distinct by serialised value.";
 
 fn fail(ty: &str, what: &str, detail: String) -> Fail {
